@@ -66,6 +66,8 @@ type ModAnalysis struct {
 	prog *Program
 	// sortExempt: sort.Ints on a location ending in this field is not counted as a write (observable write sets)
 	sortExempt string
+	// flagExempt: writes to a location ending in this field (a cache flag) are not counted (observable write sets)
+	flagExempt string
 	// Caps(f): "dst <- src" pairs: a reference rooted at src (parameter/global) is stored into
 	// memory rooted at dst (parameter/global) by f or its callees — the object at dst now aliases src.
 	Caps  map[*ssa.Function]locSet
@@ -95,10 +97,14 @@ type ModAnalysis struct {
 // modExemptSortField: set while the "observable write set" instance is built — sort.Ints on this field is not a write.
 var modExemptSortField string
 
+// modExemptFlagField: while the observable instance is built — writes to this "buffer is sorted" cache flag are not observable.
+var modExemptFlagField string
+
 func newModAnalysis(p *Program, exempt ...*ssa.Function) *ModAnalysis {
 	m := &ModAnalysis{prog: p, exempt: map[*ssa.Function]bool{}, Caps: map[*ssa.Function]locSet{}, Mods: map[*ssa.Function]locSet{}, Rets: map[*ssa.Function][]locSet{}, known: map[*ssa.Function]bool{},
 		allocID: map[ssa.Value]int{}, allocVal: map[string]ssa.Value{}, deep: map[*ssa.Function]locSet{}, deepBusy: map[*ssa.Function]bool{}, pts: map[*ssa.Function]map[string]locSet{}, AssumedPure: map[string]bool{}, impls: map[string][]*ssa.Function{}, DynCalls: map[string]bool{}}
 	m.sortExempt = modExemptSortField
+	m.flagExempt = modExemptFlagField
 	for _, f := range exempt {
 		if f != nil {
 			m.exempt[f] = true
@@ -543,6 +549,9 @@ func (m *ModAnalysis) analyse(f *ssa.Function) {
 	a := &modFn{m: m, f: f, dv: map[ssa.Value]locSet{}, bsy: map[ssa.Value]bool{}}
 	mods := m.Mods[f]
 	addMod := func(l string) {
+		if m.flagExempt != "" && strings.HasSuffix(l, "."+m.flagExempt) {
+			return
+		}
 		root := locRoot(l)
 		if strings.HasPrefix(root, "a:") || root == "fresh" {
 			return
